@@ -7,7 +7,7 @@ from typing import Dict, List, Optional, Set, Tuple
 from ..absint import AV, SAME, VIEW, Interp, Summary, Write, tensor_params_of
 from ..common import calls_named, dotted, kw, loc, norm
 from ..model import AnalysisError, ClassInfo, FunctionInfo, own_nodes
-from .util import anchor_func, build_cfg, facts
+from .util import specialise_defaults, anchor_func, build_cfg, facts
 from ..cfg import ENTRY, reaching_defs
 from . import opcontract
 from .c14 import is_none_value
@@ -200,7 +200,7 @@ def r12_3(run):
                 run.ob("R12.3", loc(gb, call), gb.short, f"gradient handed to _backprop({norm(call.args[0])}, ...) is engine-owned", not nonfresh,
                        "fresh array (tensordot / sum / astype of a fresh array)" if not nonfresh else
                        "may be " + ", ".join(f"{r}({o})" for o, r in sorted(nonfresh)))
-    cp = anchor_func(run, f"{TENSOR}.copy")
+    cp = specialise_defaults(anchor_func(run, f"{TENSOR}.copy"), keep=("constant",))
     sc = I.analyse(cp)
     for node, recv, attr, val in sc.stores:
         if attr == "_grad":
